@@ -696,6 +696,7 @@ def run(ctx):
     ok, info = (False, {"errors": [("gen/TTGen.v", 0, "not generated")]}) if tie_broken else \
         coqbuild.prove(ctx, PROP_FILE, timeout=ctx.scale(900, 1800))
     proof_broken = not ok
+    ctx.log("stage 1-2 (translate, prove) finished")
     if proof_broken:
         ctx.log("proof stage failed: %s" % (info.get("errors") or info)[:3])
     # (3) build
@@ -709,6 +710,7 @@ def run(ctx):
         ctx.log("extraction failed (model does not build against the regenerated code)")
     disagreements = []
     spec_failures = []
+    ctx.log("stage 3 (harness + extracted model built) finished")
 
     def note_spec(f, key):
         if f:
@@ -735,6 +737,7 @@ def run(ctx):
     ctx.count("spec_ply_shift_and_field_roundtrips", n)
     note_spec(f, "leaf:%s" % (f or {}).get("kind"))
 
+    ctx.log("stage 4a (leaf self-validation, %d tuples) finished" % n_leaf)
     # (4b) getIndex tuples
     full, red = hash_sizes()
     sizes = BASE_SIZES + full + [rng.choice(red) for _ in range(6)] + [rng.randrange(512, 1 << 22) & ~3 for _ in range(ctx.scale(10, 200))]
@@ -783,8 +786,50 @@ def run(ctx):
     def run_session(item):
         kind, ops = item
         return run_both(cpp_exe, ml_exe, ops, timeout=900)
+
+    # Sessions are independent (each starts with NEW); several are sent through one process pair to save
+    # process start-ups, separated by `ALLOCFAIL 0` (whose output line is dropped).  A batch in which either
+    # side stops early or miscounts is re-run session by session, so a crash is attributed to one session.
+    BATCH = ctx.scale(8, 40)
+    batches, cur = [], []
+    for item in all_sessions:
+        if item[0] == "idx":
+            batches.append([item])
+            continue
+        cur.append(item)
+        if len(cur) >= BATCH:
+            batches.append(cur)
+            cur = []
+    if cur:
+        batches.append(cur)
+
+    def run_batch(batch):
+        if len(batch) == 1:
+            return [run_session(batch[0])]
+        lines = []
+        for kind, ops in batch:
+            lines.extend(ops)
+            lines.append("ALLOCFAIL 0")
+        rc1, rc2, a, b, e1, e2 = run_both(cpp_exe, ml_exe, lines, timeout=1800)
+        if rc1 != 0 or len(a) != len(lines) or (b is not None and (rc2 != 0 or len(b) != len(lines))):
+            return [run_session(it) for it in batch]
+        out, pos = [], 0
+        for kind, ops in batch:
+            n = len(ops)
+            out.append((0, 0, a[pos:pos + n], None if b is None else b[pos:pos + n], "", ""))
+            pos += n + 1
+        return out
+    batch_times = []
+
+    def timed_batch(batch):
+        t0 = time.time()
+        r = run_batch(batch)
+        batch_times.append((round(time.time() - t0, 1), batch[0][0], batch[0][1][0], len(batch)))
+        return r
     with ThreadPoolExecutor(max_workers=NCPU) as ex:
-        results = list(ex.map(run_session, all_sessions))
+        results = [r for rs in ex.map(timed_batch, batches) for r in rs]
+    ctx.notes["slowest_batches"] = sorted(batch_times, reverse=True)[:5]
+    all_sessions = [it for bt in batches for it in bt]
     for (kind, ops), (rc1, rc2, a, b, e1, e2) in zip(all_sessions, results):
         if rc1 != 0 or len(a) != len(ops):
             disagreements.append(dict(kind="session-crash", ops=ops, note="harness rc=%s lines=%d/%d %s" % (rc1, len(a), len(ops), e1[-300:])))
@@ -826,6 +871,7 @@ def run(ctx):
         if kind == "seq" and a:
             ctx.sample({"ops": ops[:6], "cpp": a[:6], "model": (b or [])[:6]}, limit=3)
             break
+    ctx.log("stage 4b-c (%d sessions in %d batches) finished" % (len(all_sessions), len(batches)))
     # the refuted-theorem witness, replayed on the implementation (outside the property's domain)
     rc, out, err = sh([cpp_exe, "session"], input="NEW 100\nIDX ffff000000000000\n", timeout=60)
     w = out.split("\n")
@@ -876,6 +922,7 @@ def run(ctx):
                 if v["bad"]:
                     validation_failed = True
                     disagreements.append(dict(kind="hammer-trace", args=args, not_allowed_by_Atomic_v=v["bad"][:5], count=len(v["bad"])))
+    ctx.log("stage 4d (%d hammer runs) finished" % n_ham)
     ctx.notes["distribution"] = {"leaf_tuples": n_leaf, "index_tuples": per * len(sizes), "sessions": len(sessions), "hammer_runs": n_ham}
 
     corr_broken = bool(disagreements) or (ml_exe is None)
